@@ -508,6 +508,10 @@ func (o *oracles) checkToldEqualsCache(rep reporter, ctx string) {
 					// the container lost its allocation (F8/F25): nothing
 					// re-applies or re-sends its resources
 					sig = "told-equals-cache container-without-allocation"
+				} else if y.lostPush {
+					// F27: the pending marks were cleared before the refused
+					// push; nothing ever re-sends the fields it carried
+					sig = "told-equals-cache after-refused-push"
 				} else if y.reqUnsure {
 					// an earlier UpdateContainer for it failed half-way (F6/F8):
 					// plugin and runtime disagree about it since then
